@@ -278,6 +278,12 @@ impl RawConnectorBuilder {
             let features = utils::parse_csv_row(features_str);
             let mut result = vec![];
             for feature in features {
+                // `*` means that the template does not apply to this id: it never matches,
+                // even if `bigram.cost` lists a feature spelled `*`.
+                if feature == "*" {
+                    result.push(INVALID_FEATURE_ID);
+                    continue;
+                }
                 result.push(*id_map.get(&feature).unwrap_or(&INVALID_FEATURE_ID));
             }
             return Ok((id, result));
